@@ -80,6 +80,9 @@ func faultScenarios() []faultScenario {
 			rd(70000, 24 * 2048), rd(100, 1 << 30), {Op: opOpenFile, Path: "/***DVD***/d"}, rd(65536, 30 * 2048)}},
 		{"redump", false, []*Req{{Op: opOpenFile, Path: "/PS3ISO/g.iso"}, rd(4096, 0), rd(5000, 3*2048 + 7), cr(2048, 7 * 2048), rd(30000, 0), {Op: opStatFile, Path: "/PS3ISO/g.iso"}}},
 		{"3k3y", false, []*Req{{Op: opOpenFile, Path: "/iso3k/t.iso"}, rd(300, 0xF60), rd(5000, 3*2048 + 7), cr(4096, 2048), rd(30000, 0)}},
+		{"held", true, []*Req{{Op: opOpenFile, Path: "/f.bin"}, rd(100, 0), {Op: opOpenDir, Path: "/d"}, {Op: opReadDirEntry}, {Op: opReadDirEntry}, {Op: opReadDirEntry}, {Op: opReadDirEntry},
+			{Op: opOpenDir, Path: "/d"}, {Op: opReadDirEntry}, {Op: opCreateFile, Path: "/up/h.bin"},
+			{Op: opWriteFile, N: 5, Payload: []byte("hello")}}}, // ends with a read file, a directory and an upload all open
 		{"upload", true, []*Req{{Op: opCreateFile, Path: "/up/u.bin"}, {Op: opWriteFile, N: 3000, Payload: bytes.Repeat([]byte{5}, 3000)}, {Op: opWriteFile, N: 10, Payload: []byte("0123456789")},
 			{Op: opStatFile, Path: "/up/u.bin"}, {Op: opOpenFile, Path: "/up/u.bin"}, rd(4000, 0), {Op: opMkdir, Path: "/up/nd"}, {Op: opRmdir, Path: "/up/nd"}, {Op: opDeleteFile, Path: "/up/u.bin"}}},
 	}
@@ -339,6 +342,21 @@ func runFaults(env *Env) error {
 				judge(id, fmt.Sprintf("%s unreadable from offset %d", file, bad), res, false)
 				env.Case(id, "NOMODEL", []string{sc.name, fmt.Sprint(bad)}, fmt.Sprintf("leak=%d", res.leak), true)
 			}
+		}
+		// (3b) every Close reports an error (the handle itself is released): the others are closed all the same
+		{
+			id := fmt.Sprintf("faults-%s-closeerr", sc.name)
+			top, err := fresh(fmt.Sprintf("s%d-c", si))
+			if err != nil {
+				return err
+			}
+			sessPrep = func(ls *LibServer) { ls.Dfs.CloseErr = true }
+			res, err := runSession(top, sc.allow, chunks, ops, 65536, nil)
+			if err != nil {
+				return err
+			}
+			judge(id, "every Close reporting EIO", res, false)
+			env.Case(id, "NOMODEL", []string{sc.name, "closeerr"}, fmt.Sprintf("leak=%d", res.leak), true)
 		}
 		// (4) every way of ending the connection at every request boundary
 		for cut := 0; cut <= len(chunks); cut++ {
